@@ -13,8 +13,13 @@
 (* completion flag, and waits for *its* flag; the sender copies, sets the  *)
 (* flag and clears getp.  HandOffBug = TRUE restores the pre-fix code      *)
 (* (wait on getp, ok := ~closed) so that TLC re-finds the two defects.     *)
-(* Scenarios come from the same file as GoChanProg; select operations are  *)
-(* outside this module (a scenario containing one is skipped).             *)
+(* Scenarios come from the same file as GoChanProg.  select is modelled as *)
+(* the code does it: TrySelect polls the cases in order; Select registers  *)
+(* its selectOp on every channel (counting itself as a blocked sender on   *)
+(* unbuffered ones), polls by direction (sends first when the lowest send  *)
+(* channel address is below the lowest receive address), sleeps on its     *)
+(* semaphore and finally withdraws.  notifyOps is one atomic step inside   *)
+(* the notifier's critical section (the selectOp mutex guards one flag).   *)
 (* Terminal outcomes are printed and must be outcomes GoChanProg allows.   *)
 (***************************************************************************)
 EXTENDS Naturals, Sequences, FiniteSets, TLC, Json, Integers
@@ -23,7 +28,9 @@ CONSTANTS HandOffBug, SpuriousBudget
 
 Scenarios == ndJsonDeserialize("scenarios.ndjson")
 HasSelect(s) == \E t \in 1..Len(s.threads) : \E i \in 1..Len(s.threads[t]) : s.threads[t][i].k = "select"
-Supported == {i \in 1..Len(Scenarios) : ~HasSelect(Scenarios[i])}
+CONSTANT WithSelect
+CONSTANT SelPanicBug   \* TRUE restores the code before fix 75a5786: Select panics on a closed send channel while still registered
+Supported == {i \in 1..Len(Scenarios) : WithSelect \/ ~HasSelect(Scenarios[i])}
 MaxThreads == 3
 MaxChans == 2
 
@@ -39,19 +46,41 @@ variables
   q = [x \in 1..MaxChans |-> <<>>],           \* ring buffer contents, oldest first (len = Len(q))
   closed = [x \in 1..MaxChans |-> FALSE],
   sends = [x \in 1..MaxChans |-> 0],
+  selsends = [x \in 1..MaxChans |-> 0],       \* how many of `sends` are registered select-sends
+  sops = [x \in 1..MaxChans |-> [t \in 1..MaxThreads |-> 0]],   \* p.sops as a bag of selectOps (one per thread)
+  sem = [t \in 1..MaxThreads |-> FALSE],      \* selectOp.sem
+  selsleep = {},                              \* threads inside selectOp.wait's cond.Wait
   downer = [x \in 1..MaxChans |-> 0],         \* thread whose buffer / done flag p.data, p.done point to
   doneF = [t \in 1..MaxThreads |-> FALSE],
   slot = [t \in 1..MaxThreads |-> 0],
   res = [t \in 1..MaxThreads |-> <<>>],
+  tok = [t \in 1..MaxThreads |-> FALSE],      \* results of the try operations: tryOK, recvOK, "channel is closed"
+  trok = [t \in 1..MaxThreads |-> FALSE],
+  tcl = [t \in 1..MaxThreads |-> FALSE],
   spur = SpuriousBudget;
 
 define
   Prog(t) == IF t <= NT THEN Scenarios[sc].threads[t] ELSE <<>>
   R(v, ok, pan) == [sel |-> 0, val |-> v, ok |-> ok, pan |-> pan]
+  \* channel addresses ascend with the index unless the scenario says rev
+  Addr(x) == IF Scenarios[sc].rev THEN 0 - x ELSE x
+  CaseIdx(o, snd) == {j \in 1..Len(o.cases) : o.cases[j].send = snd}
+  Addrs(o, snd) == {Addr(o.cases[j].c) : j \in CaseIdx(o, snd)}
+  MinOf(S) == CHOOSE x \in S : \A y \in S : x <= y
+  SendFirst(o) == IF Addrs(o, TRUE) = {} THEN FALSE
+                  ELSE IF Addrs(o, FALSE) = {} THEN TRUE
+                  ELSE MinOf(Addrs(o, TRUE)) < MinOf(Addrs(o, FALSE))
+  SendChans(o) == {o.cases[j].c + 1 : j \in CaseIdx(o, TRUE)}
+  PassSends(o, pass) == IF SendFirst(o) THEN pass = 1 ELSE pass = 2
 end define;
 
 macro lock(c) begin await mu[c] = 0; mu[c] := self; end macro;
 macro unlock(c) begin mu[c] := 0; end macro;
+\* notifyOps: every registered selectOp gets its flag set and its sleeper (if any) signalled
+macro notify(ch) begin
+  sem := [t \in 1..MaxThreads |-> sem[t] \/ sops[ch][t] > 0];
+  selsleep := {t \in selsleep : sops[ch][t] = 0};
+end macro;
 
 \* cond.Wait: release the mutex and sleep (no scheduling point), then wake up and re-acquire (one step)
 procedure wait(wc)
@@ -61,8 +90,80 @@ begin
      return;
 end procedure;
 
+\* chanTrySend: one critical section, then the broadcast
+procedure trysend(tsc, tsv)
+begin
+ TSa: await mu[tsc] = 0;
+      if closed[tsc] then
+        tok[self] := FALSE; tcl[self] := TRUE;
+        return;
+      elsif cap[tsc] = 0 then
+        if getp[tsc] # 1 then
+          tok[self] := FALSE; tcl[self] := FALSE;
+          return;
+        else
+          slot[downer[tsc]] := tsv; doneF[downer[tsc]] := TRUE; getp[tsc] := 0;
+          tcl[self] := FALSE;
+          notify(tsc);
+        end if;
+      else
+        if Len(q[tsc]) = cap[tsc] then
+          tok[self] := FALSE; tcl[self] := FALSE;
+          return;
+        else
+          q[tsc] := Append(q[tsc], tsv);
+          tcl[self] := FALSE;
+          notify(tsc);
+        end if;
+      end if;
+ TSb: sleepers[tsc] := {};                     \* cond.Broadcast
+      tok[self] := TRUE;
+      return;
+end procedure;
+
+\* chanTryRecv(p, v, size, acceptSelectSend)
+procedure tryrecv(trc, tracc)
+begin
+ TRa: await mu[trc] = 0;
+      if cap[trc] = 0 then
+        if sends[trc] = 0 \/ getp[trc] = 1 \/ closed[trc] then
+          tok[self] := closed[trc]; trok[self] := FALSE;
+          return;
+        elsif ~tracc /\ sends[trc] = selsends[trc] then
+          tok[self] := FALSE; trok[self] := FALSE;
+          return;
+        else
+          getp[trc] := 1; downer[trc] := self; doneF[self] := FALSE; slot[self] := 0;
+          notify(trc);
+        end if;
+      else
+        if Len(q[trc]) = 0 then
+          tok[self] := closed[trc]; trok[self] := FALSE;
+          return;
+        else
+          slot[self] := Head(q[trc]); q[trc] := Tail(q[trc]);
+          notify(trc);
+        end if;
+      end if;
+ TRb: sleepers[trc] := {};                     \* cond.Broadcast
+      if cap[trc] # 0 then
+        tok[self] := TRUE; trok[self] := TRUE;
+        return;
+      end if;
+ TRc: lock(trc);
+ TRd: while ~doneF[self] /\ ~closed[trc] /\ sends[trc] # 0 do
+        call wait(trc);
+      end while;
+      if ~doneF[self] /\ ~closed[trc] then       \* the select-send it published for has left: withdraw
+        getp[trc] := 0;
+      end if;
+      tok[self] := doneF[self]; trok[self] := doneF[self];
+      unlock(trc);
+      return;
+end procedure;
+
 process thr \in 1..MaxThreads
-variables pc0 = 1, op = [k |-> "none"], c = 1, drop = FALSE;
+variables pc0 = 1, op = [k |-> "none"], c = 1, drop = FALSE, ci = 1, pass = 1, isel = 0;
 begin
  Loop:
   while pc0 <= Len(Prog(self)) do
@@ -72,6 +173,9 @@ begin
       if cap[c] = 0 then
  S2:    while getp[c] # 1 /\ ~closed[c] do
           sends[c] := sends[c] + 1;
+          if sends[c] = 1 \/ sends[c] - 1 = selsends[c] then
+            notify(c);
+          end if;
           call wait(c);
  S3:      sends[c] := sends[c] - 1;
         end while;
@@ -92,7 +196,7 @@ begin
           q[c] := Append(q[c], op.v);
         end if;
       end if;
- S6:  unlock(c);
+ S6:  notify(c); unlock(c);
  S7:  sleepers[c] := {};                       \* cond.Broadcast
       res[self] := Append(res[self], R(0, FALSE, ""));
     elsif op.k = "recv" then
@@ -107,6 +211,7 @@ begin
           goto Loop;
         else
           getp[c] := 1; downer[c] := self;
+          notify(c);
           unlock(c);
         end if;
  R4:    sleepers[c] := {};                     \* cond.Broadcast
@@ -125,6 +230,7 @@ begin
           goto Loop;
         else
           slot[self] := Head(q[c]); q[c] := Tail(q[c]);
+          notify(c);
           unlock(c);
         end if;
  R10:   sleepers[c] := {};                     \* cond.Broadcast
@@ -137,9 +243,95 @@ begin
         goto Loop;
       else
         closed[c] := TRUE;
+        notify(c);
       end if;
  C2:  sleepers[c] := {};                       \* cond.Broadcast
       res[self] := Append(res[self], R(0, FALSE, ""));
+    elsif op.k = "select" /\ op.dflt then
+      \* TrySelect: the cases in source order; a send on a closed channel panics at once
+      ci := 1; tok[self] := FALSE; trok[self] := FALSE; tcl[self] := FALSE;
+ T1:  while ci <= Len(op.cases) /\ ~tok[self] /\ ~tcl[self] do
+        c := op.cases[ci].c + 1;
+        if op.cases[ci].send then
+          call trysend(c, op.cases[ci].v);
+        else
+          call tryrecv(c, TRUE);
+        end if;
+ T2:    if ~tok[self] /\ ~tcl[self] then
+          ci := ci + 1;
+        end if;
+      end while;
+      if tcl[self] then
+        res[self] := Append(res[self], R(0, FALSE, "sendclosed")); pc0 := 99;
+      elsif tok[self] then
+        res[self] := Append(res[self], [sel |-> ci, val |-> IF trok[self] /\ ~drop THEN slot[self] ELSE 0, ok |-> trok[self], pan |-> ""]);
+      else
+        res[self] := Append(res[self], R(0, FALSE, ""));
+      end if;
+    elsif op.k = "select" then
+      \* Select: prepareSelect on every case, in order
+      ci := 1; tok[self] := FALSE; trok[self] := FALSE; tcl[self] := FALSE; sem[self] := FALSE;
+ P1:  while ci <= Len(op.cases) do
+        c := op.cases[ci].c + 1;
+        await mu[c] = 0;
+        sops[c][self] := sops[c][self] + 1;
+        if cap[c] = 0 /\ op.cases[ci].send then
+          sends[c] := sends[c] + 1; selsends[c] := selsends[c] + 1;
+          notify(c);
+        end if;
+        ci := ci + 1;
+      end while;
+ L1:  pass := 1;
+ L2:  while pass <= 2 /\ ~tok[self] /\ ~tcl[self] do
+        ci := 1;
+ L3:    while ci <= Len(op.cases) /\ ~tok[self] /\ ~tcl[self] do
+          if op.cases[ci].send = PassSends(op, pass) then
+            c := op.cases[ci].c + 1;
+            if op.cases[ci].send then
+              call trysend(c, op.cases[ci].v);
+            else
+              call tryrecv(c, (~SendFirst(op)) /\ (c \notin SendChans(op)));
+            end if;
+          end if;
+ L4:      if ~tok[self] /\ ~tcl[self] then
+            ci := ci + 1;
+          end if;
+        end while;
+        if ~tok[self] /\ ~tcl[self] then
+          pass := pass + 1;
+        end if;
+      end while;
+      if ~tok[self] /\ ~tcl[self] then
+        \* selectOp.wait(): `if !sem { cond.Wait }; sem = false`
+ W3:    if sem[self] then
+          sem[self] := FALSE;
+        else
+          selsleep := selsleep \cup {self};
+ W4:      await self \notin selsleep;
+          sem[self] := FALSE;
+        end if;
+ W5:    goto L1;
+      end if;
+ E0:  if SelPanicBug /\ tcl[self] then
+        res[self] := Append(res[self], R(0, FALSE, "sendclosed")); pc0 := 99;
+        goto Loop;
+      end if;
+ E1:  isel := ci; ci := 1;
+ E2:  while ci <= Len(op.cases) do                \* endSelect on every case
+        c := op.cases[ci].c + 1;
+        await mu[c] = 0;
+        sops[c][self] := sops[c][self] - 1;
+        if cap[c] = 0 /\ op.cases[ci].send then
+          sends[c] := sends[c] - 1; selsends[c] := selsends[c] - 1;
+ E3:      sleepers[c] := {};                      \* cond.Broadcast
+        end if;
+ E4:    ci := ci + 1;
+      end while;
+      if tcl[self] then
+        res[self] := Append(res[self], R(0, FALSE, "sendclosed")); pc0 := 99;
+      else
+        res[self] := Append(res[self], [sel |-> isel, val |-> IF trok[self] /\ ~drop THEN slot[self] ELSE 0, ok |-> trok[self], pan |-> ""]);
+      end if;
     end if;
   end while;
 end process;
@@ -148,28 +340,47 @@ end process;
 process spurious = 0
 begin
  Sp: while spur > 0 do
-       with ch \in {x \in 1..MaxChans : sleepers[x] # {}} do
-         with t \in sleepers[ch] do
-           sleepers[ch] := sleepers[ch] \ {t};
+       either
+         with ch \in {x \in 1..MaxChans : sleepers[x] # {}} do
+           with t \in sleepers[ch] do
+             sleepers[ch] := sleepers[ch] \ {t};
+           end with;
          end with;
-       end with;
+       or
+         with t \in selsleep do
+           selsleep := selsleep \ {t};
+         end with;
+       end either;
        spur := spur - 1;
      end while;
 end process;
 end algorithm; *)
 \* BEGIN TRANSLATION
 CONSTANT defaultInitValue
-VARIABLES pc, sc, NT, NC, cap, mu, sleepers, getp, q, closed, sends, downer, 
-          doneF, slot, res, spur, stack
+VARIABLES pc, sc, NT, NC, cap, mu, sleepers, getp, q, closed, sends, selsends, 
+          sops, sem, selsleep, downer, doneF, slot, res, tok, trok, tcl, spur, 
+          stack
 
 (* define statement *)
 Prog(t) == IF t <= NT THEN Scenarios[sc].threads[t] ELSE <<>>
 R(v, ok, pan) == [sel |-> 0, val |-> v, ok |-> ok, pan |-> pan]
 
-VARIABLES wc, pc0, op, c, drop
+Addr(x) == IF Scenarios[sc].rev THEN 0 - x ELSE x
+CaseIdx(o, snd) == {j \in 1..Len(o.cases) : o.cases[j].send = snd}
+Addrs(o, snd) == {Addr(o.cases[j].c) : j \in CaseIdx(o, snd)}
+MinOf(S) == CHOOSE x \in S : \A y \in S : x <= y
+SendFirst(o) == IF Addrs(o, TRUE) = {} THEN FALSE
+                ELSE IF Addrs(o, FALSE) = {} THEN TRUE
+                ELSE MinOf(Addrs(o, TRUE)) < MinOf(Addrs(o, FALSE))
+SendChans(o) == {o.cases[j].c + 1 : j \in CaseIdx(o, TRUE)}
+PassSends(o, pass) == IF SendFirst(o) THEN pass = 1 ELSE pass = 2
 
-vars == << pc, sc, NT, NC, cap, mu, sleepers, getp, q, closed, sends, downer, 
-           doneF, slot, res, spur, stack, wc, pc0, op, c, drop >>
+VARIABLES wc, tsc, tsv, trc, tracc, pc0, op, c, drop, ci, pass, isel
+
+vars == << pc, sc, NT, NC, cap, mu, sleepers, getp, q, closed, sends, 
+           selsends, sops, sem, selsleep, downer, doneF, slot, res, tok, trok, 
+           tcl, spur, stack, wc, tsc, tsv, trc, tracc, pc0, op, c, drop, ci, 
+           pass, isel >>
 
 ProcSet == (1..MaxThreads) \cup {0}
 
@@ -184,18 +395,34 @@ Init == (* Global variables *)
         /\ q = [x \in 1..MaxChans |-> <<>>]
         /\ closed = [x \in 1..MaxChans |-> FALSE]
         /\ sends = [x \in 1..MaxChans |-> 0]
+        /\ selsends = [x \in 1..MaxChans |-> 0]
+        /\ sops = [x \in 1..MaxChans |-> [t \in 1..MaxThreads |-> 0]]
+        /\ sem = [t \in 1..MaxThreads |-> FALSE]
+        /\ selsleep = {}
         /\ downer = [x \in 1..MaxChans |-> 0]
         /\ doneF = [t \in 1..MaxThreads |-> FALSE]
         /\ slot = [t \in 1..MaxThreads |-> 0]
         /\ res = [t \in 1..MaxThreads |-> <<>>]
+        /\ tok = [t \in 1..MaxThreads |-> FALSE]
+        /\ trok = [t \in 1..MaxThreads |-> FALSE]
+        /\ tcl = [t \in 1..MaxThreads |-> FALSE]
         /\ spur = SpuriousBudget
         (* Procedure wait *)
         /\ wc = [ self \in ProcSet |-> defaultInitValue]
+        (* Procedure trysend *)
+        /\ tsc = [ self \in ProcSet |-> defaultInitValue]
+        /\ tsv = [ self \in ProcSet |-> defaultInitValue]
+        (* Procedure tryrecv *)
+        /\ trc = [ self \in ProcSet |-> defaultInitValue]
+        /\ tracc = [ self \in ProcSet |-> defaultInitValue]
         (* Process thr *)
         /\ pc0 = [self \in 1..MaxThreads |-> 1]
         /\ op = [self \in 1..MaxThreads |-> [k |-> "none"]]
         /\ c = [self \in 1..MaxThreads |-> 1]
         /\ drop = [self \in 1..MaxThreads |-> FALSE]
+        /\ ci = [self \in 1..MaxThreads |-> 1]
+        /\ pass = [self \in 1..MaxThreads |-> 1]
+        /\ isel = [self \in 1..MaxThreads |-> 0]
         /\ stack = [self \in ProcSet |-> << >>]
         /\ pc = [self \in ProcSet |-> CASE self \in 1..MaxThreads -> "Loop"
                                         [] self = 0 -> "Sp"]
@@ -204,9 +431,10 @@ W1(self) == /\ pc[self] = "W1"
             /\ mu' = [mu EXCEPT ![wc[self]] = 0]
             /\ sleepers' = [sleepers EXCEPT ![wc[self]] = sleepers[wc[self]] \cup {self}]
             /\ pc' = [pc EXCEPT ![self] = "W2"]
-            /\ UNCHANGED << sc, NT, NC, cap, getp, q, closed, sends, downer, 
-                            doneF, slot, res, spur, stack, wc, pc0, op, c, 
-                            drop >>
+            /\ UNCHANGED << sc, NT, NC, cap, getp, q, closed, sends, selsends, 
+                            sops, sem, selsleep, downer, doneF, slot, res, tok, 
+                            trok, tcl, spur, stack, wc, tsc, tsv, trc, tracc, 
+                            pc0, op, c, drop, ci, pass, isel >>
 
 W2(self) == /\ pc[self] = "W2"
             /\ self \notin sleepers[wc[self]] /\ mu[wc[self]] = 0
@@ -215,9 +443,181 @@ W2(self) == /\ pc[self] = "W2"
             /\ wc' = [wc EXCEPT ![self] = Head(stack[self]).wc]
             /\ stack' = [stack EXCEPT ![self] = Tail(stack[self])]
             /\ UNCHANGED << sc, NT, NC, cap, sleepers, getp, q, closed, sends, 
-                            downer, doneF, slot, res, spur, pc0, op, c, drop >>
+                            selsends, sops, sem, selsleep, downer, doneF, slot, 
+                            res, tok, trok, tcl, spur, tsc, tsv, trc, tracc, 
+                            pc0, op, c, drop, ci, pass, isel >>
 
 wait(self) == W1(self) \/ W2(self)
+
+TSa(self) == /\ pc[self] = "TSa"
+             /\ mu[tsc[self]] = 0
+             /\ IF closed[tsc[self]]
+                   THEN /\ tok' = [tok EXCEPT ![self] = FALSE]
+                        /\ tcl' = [tcl EXCEPT ![self] = TRUE]
+                        /\ pc' = [pc EXCEPT ![self] = Head(stack[self]).pc]
+                        /\ tsc' = [tsc EXCEPT ![self] = Head(stack[self]).tsc]
+                        /\ tsv' = [tsv EXCEPT ![self] = Head(stack[self]).tsv]
+                        /\ stack' = [stack EXCEPT ![self] = Tail(stack[self])]
+                        /\ UNCHANGED << getp, q, sem, selsleep, doneF, slot >>
+                   ELSE /\ IF cap[tsc[self]] = 0
+                              THEN /\ IF getp[tsc[self]] # 1
+                                         THEN /\ tok' = [tok EXCEPT ![self] = FALSE]
+                                              /\ tcl' = [tcl EXCEPT ![self] = FALSE]
+                                              /\ pc' = [pc EXCEPT ![self] = Head(stack[self]).pc]
+                                              /\ tsc' = [tsc EXCEPT ![self] = Head(stack[self]).tsc]
+                                              /\ tsv' = [tsv EXCEPT ![self] = Head(stack[self]).tsv]
+                                              /\ stack' = [stack EXCEPT ![self] = Tail(stack[self])]
+                                              /\ UNCHANGED << getp, sem, 
+                                                              selsleep, doneF, 
+                                                              slot >>
+                                         ELSE /\ slot' = [slot EXCEPT ![downer[tsc[self]]] = tsv[self]]
+                                              /\ doneF' = [doneF EXCEPT ![downer[tsc[self]]] = TRUE]
+                                              /\ getp' = [getp EXCEPT ![tsc[self]] = 0]
+                                              /\ tcl' = [tcl EXCEPT ![self] = FALSE]
+                                              /\ sem' = [t \in 1..MaxThreads |-> sem[t] \/ sops[tsc[self]][t] > 0]
+                                              /\ selsleep' = {t \in selsleep : sops[tsc[self]][t] = 0}
+                                              /\ pc' = [pc EXCEPT ![self] = "TSb"]
+                                              /\ UNCHANGED << tok, stack, tsc, 
+                                                              tsv >>
+                                   /\ q' = q
+                              ELSE /\ IF Len(q[tsc[self]]) = cap[tsc[self]]
+                                         THEN /\ tok' = [tok EXCEPT ![self] = FALSE]
+                                              /\ tcl' = [tcl EXCEPT ![self] = FALSE]
+                                              /\ pc' = [pc EXCEPT ![self] = Head(stack[self]).pc]
+                                              /\ tsc' = [tsc EXCEPT ![self] = Head(stack[self]).tsc]
+                                              /\ tsv' = [tsv EXCEPT ![self] = Head(stack[self]).tsv]
+                                              /\ stack' = [stack EXCEPT ![self] = Tail(stack[self])]
+                                              /\ UNCHANGED << q, sem, selsleep >>
+                                         ELSE /\ q' = [q EXCEPT ![tsc[self]] = Append(q[tsc[self]], tsv[self])]
+                                              /\ tcl' = [tcl EXCEPT ![self] = FALSE]
+                                              /\ sem' = [t \in 1..MaxThreads |-> sem[t] \/ sops[tsc[self]][t] > 0]
+                                              /\ selsleep' = {t \in selsleep : sops[tsc[self]][t] = 0}
+                                              /\ pc' = [pc EXCEPT ![self] = "TSb"]
+                                              /\ UNCHANGED << tok, stack, tsc, 
+                                                              tsv >>
+                                   /\ UNCHANGED << getp, doneF, slot >>
+             /\ UNCHANGED << sc, NT, NC, cap, mu, sleepers, closed, sends, 
+                             selsends, sops, downer, res, trok, spur, wc, trc, 
+                             tracc, pc0, op, c, drop, ci, pass, isel >>
+
+TSb(self) == /\ pc[self] = "TSb"
+             /\ sleepers' = [sleepers EXCEPT ![tsc[self]] = {}]
+             /\ tok' = [tok EXCEPT ![self] = TRUE]
+             /\ pc' = [pc EXCEPT ![self] = Head(stack[self]).pc]
+             /\ tsc' = [tsc EXCEPT ![self] = Head(stack[self]).tsc]
+             /\ tsv' = [tsv EXCEPT ![self] = Head(stack[self]).tsv]
+             /\ stack' = [stack EXCEPT ![self] = Tail(stack[self])]
+             /\ UNCHANGED << sc, NT, NC, cap, mu, getp, q, closed, sends, 
+                             selsends, sops, sem, selsleep, downer, doneF, 
+                             slot, res, trok, tcl, spur, wc, trc, tracc, pc0, 
+                             op, c, drop, ci, pass, isel >>
+
+trysend(self) == TSa(self) \/ TSb(self)
+
+TRa(self) == /\ pc[self] = "TRa"
+             /\ mu[trc[self]] = 0
+             /\ IF cap[trc[self]] = 0
+                   THEN /\ IF sends[trc[self]] = 0 \/ getp[trc[self]] = 1 \/ closed[trc[self]]
+                              THEN /\ tok' = [tok EXCEPT ![self] = closed[trc[self]]]
+                                   /\ trok' = [trok EXCEPT ![self] = FALSE]
+                                   /\ pc' = [pc EXCEPT ![self] = Head(stack[self]).pc]
+                                   /\ trc' = [trc EXCEPT ![self] = Head(stack[self]).trc]
+                                   /\ tracc' = [tracc EXCEPT ![self] = Head(stack[self]).tracc]
+                                   /\ stack' = [stack EXCEPT ![self] = Tail(stack[self])]
+                                   /\ UNCHANGED << getp, sem, selsleep, downer, 
+                                                   doneF, slot >>
+                              ELSE /\ IF ~tracc[self] /\ sends[trc[self]] = selsends[trc[self]]
+                                         THEN /\ tok' = [tok EXCEPT ![self] = FALSE]
+                                              /\ trok' = [trok EXCEPT ![self] = FALSE]
+                                              /\ pc' = [pc EXCEPT ![self] = Head(stack[self]).pc]
+                                              /\ trc' = [trc EXCEPT ![self] = Head(stack[self]).trc]
+                                              /\ tracc' = [tracc EXCEPT ![self] = Head(stack[self]).tracc]
+                                              /\ stack' = [stack EXCEPT ![self] = Tail(stack[self])]
+                                              /\ UNCHANGED << getp, sem, 
+                                                              selsleep, downer, 
+                                                              doneF, slot >>
+                                         ELSE /\ getp' = [getp EXCEPT ![trc[self]] = 1]
+                                              /\ downer' = [downer EXCEPT ![trc[self]] = self]
+                                              /\ doneF' = [doneF EXCEPT ![self] = FALSE]
+                                              /\ slot' = [slot EXCEPT ![self] = 0]
+                                              /\ sem' = [t \in 1..MaxThreads |-> sem[t] \/ sops[trc[self]][t] > 0]
+                                              /\ selsleep' = {t \in selsleep : sops[trc[self]][t] = 0}
+                                              /\ pc' = [pc EXCEPT ![self] = "TRb"]
+                                              /\ UNCHANGED << tok, trok, stack, 
+                                                              trc, tracc >>
+                        /\ q' = q
+                   ELSE /\ IF Len(q[trc[self]]) = 0
+                              THEN /\ tok' = [tok EXCEPT ![self] = closed[trc[self]]]
+                                   /\ trok' = [trok EXCEPT ![self] = FALSE]
+                                   /\ pc' = [pc EXCEPT ![self] = Head(stack[self]).pc]
+                                   /\ trc' = [trc EXCEPT ![self] = Head(stack[self]).trc]
+                                   /\ tracc' = [tracc EXCEPT ![self] = Head(stack[self]).tracc]
+                                   /\ stack' = [stack EXCEPT ![self] = Tail(stack[self])]
+                                   /\ UNCHANGED << q, sem, selsleep, slot >>
+                              ELSE /\ slot' = [slot EXCEPT ![self] = Head(q[trc[self]])]
+                                   /\ q' = [q EXCEPT ![trc[self]] = Tail(q[trc[self]])]
+                                   /\ sem' = [t \in 1..MaxThreads |-> sem[t] \/ sops[trc[self]][t] > 0]
+                                   /\ selsleep' = {t \in selsleep : sops[trc[self]][t] = 0}
+                                   /\ pc' = [pc EXCEPT ![self] = "TRb"]
+                                   /\ UNCHANGED << tok, trok, stack, trc, 
+                                                   tracc >>
+                        /\ UNCHANGED << getp, downer, doneF >>
+             /\ UNCHANGED << sc, NT, NC, cap, mu, sleepers, closed, sends, 
+                             selsends, sops, res, tcl, spur, wc, tsc, tsv, pc0, 
+                             op, c, drop, ci, pass, isel >>
+
+TRb(self) == /\ pc[self] = "TRb"
+             /\ sleepers' = [sleepers EXCEPT ![trc[self]] = {}]
+             /\ IF cap[trc[self]] # 0
+                   THEN /\ tok' = [tok EXCEPT ![self] = TRUE]
+                        /\ trok' = [trok EXCEPT ![self] = TRUE]
+                        /\ pc' = [pc EXCEPT ![self] = Head(stack[self]).pc]
+                        /\ trc' = [trc EXCEPT ![self] = Head(stack[self]).trc]
+                        /\ tracc' = [tracc EXCEPT ![self] = Head(stack[self]).tracc]
+                        /\ stack' = [stack EXCEPT ![self] = Tail(stack[self])]
+                   ELSE /\ pc' = [pc EXCEPT ![self] = "TRc"]
+                        /\ UNCHANGED << tok, trok, stack, trc, tracc >>
+             /\ UNCHANGED << sc, NT, NC, cap, mu, getp, q, closed, sends, 
+                             selsends, sops, sem, selsleep, downer, doneF, 
+                             slot, res, tcl, spur, wc, tsc, tsv, pc0, op, c, 
+                             drop, ci, pass, isel >>
+
+TRc(self) == /\ pc[self] = "TRc"
+             /\ mu[trc[self]] = 0
+             /\ mu' = [mu EXCEPT ![trc[self]] = self]
+             /\ pc' = [pc EXCEPT ![self] = "TRd"]
+             /\ UNCHANGED << sc, NT, NC, cap, sleepers, getp, q, closed, sends, 
+                             selsends, sops, sem, selsleep, downer, doneF, 
+                             slot, res, tok, trok, tcl, spur, stack, wc, tsc, 
+                             tsv, trc, tracc, pc0, op, c, drop, ci, pass, isel >>
+
+TRd(self) == /\ pc[self] = "TRd"
+             /\ IF ~doneF[self] /\ ~closed[trc[self]] /\ sends[trc[self]] # 0
+                   THEN /\ /\ stack' = [stack EXCEPT ![self] = << [ procedure |->  "wait",
+                                                                    pc        |->  "TRd",
+                                                                    wc        |->  wc[self] ] >>
+                                                                \o stack[self]]
+                           /\ wc' = [wc EXCEPT ![self] = trc[self]]
+                        /\ pc' = [pc EXCEPT ![self] = "W1"]
+                        /\ UNCHANGED << mu, getp, tok, trok, trc, tracc >>
+                   ELSE /\ IF ~doneF[self] /\ ~closed[trc[self]]
+                              THEN /\ getp' = [getp EXCEPT ![trc[self]] = 0]
+                              ELSE /\ TRUE
+                                   /\ getp' = getp
+                        /\ tok' = [tok EXCEPT ![self] = doneF[self]]
+                        /\ trok' = [trok EXCEPT ![self] = doneF[self]]
+                        /\ mu' = [mu EXCEPT ![trc[self]] = 0]
+                        /\ pc' = [pc EXCEPT ![self] = Head(stack[self]).pc]
+                        /\ trc' = [trc EXCEPT ![self] = Head(stack[self]).trc]
+                        /\ tracc' = [tracc EXCEPT ![self] = Head(stack[self]).tracc]
+                        /\ stack' = [stack EXCEPT ![self] = Tail(stack[self])]
+                        /\ wc' = wc
+             /\ UNCHANGED << sc, NT, NC, cap, sleepers, q, closed, sends, 
+                             selsends, sops, sem, selsleep, downer, doneF, 
+                             slot, res, tcl, spur, tsc, tsv, pc0, op, c, drop, 
+                             ci, pass, isel >>
+
+tryrecv(self) == TRa(self) \/ TRb(self) \/ TRc(self) \/ TRd(self)
 
 Loop(self) == /\ pc[self] = "Loop"
               /\ IF pc0[self] <= Len(Prog(self))
@@ -227,19 +627,49 @@ Loop(self) == /\ pc[self] = "Loop"
                          /\ pc0' = [pc0 EXCEPT ![self] = pc0[self] + 1]
                          /\ IF op'[self].k = "send"
                                THEN /\ pc' = [pc EXCEPT ![self] = "S1"]
-                                    /\ UNCHANGED << doneF, slot >>
+                                    /\ UNCHANGED << sem, doneF, slot, tok, 
+                                                    trok, tcl, ci >>
                                ELSE /\ IF op'[self].k = "recv"
                                           THEN /\ doneF' = [doneF EXCEPT ![self] = FALSE]
                                                /\ slot' = [slot EXCEPT ![self] = 0]
                                                /\ pc' = [pc EXCEPT ![self] = "R1"]
+                                               /\ UNCHANGED << sem, tok, trok, 
+                                                               tcl, ci >>
                                           ELSE /\ IF op'[self].k = "close"
                                                      THEN /\ pc' = [pc EXCEPT ![self] = "C1"]
-                                                     ELSE /\ pc' = [pc EXCEPT ![self] = "Loop"]
+                                                          /\ UNCHANGED << sem, 
+                                                                          tok, 
+                                                                          trok, 
+                                                                          tcl, 
+                                                                          ci >>
+                                                     ELSE /\ IF op'[self].k = "select" /\ op'[self].dflt
+                                                                THEN /\ ci' = [ci EXCEPT ![self] = 1]
+                                                                     /\ tok' = [tok EXCEPT ![self] = FALSE]
+                                                                     /\ trok' = [trok EXCEPT ![self] = FALSE]
+                                                                     /\ tcl' = [tcl EXCEPT ![self] = FALSE]
+                                                                     /\ pc' = [pc EXCEPT ![self] = "T1"]
+                                                                     /\ sem' = sem
+                                                                ELSE /\ IF op'[self].k = "select"
+                                                                           THEN /\ ci' = [ci EXCEPT ![self] = 1]
+                                                                                /\ tok' = [tok EXCEPT ![self] = FALSE]
+                                                                                /\ trok' = [trok EXCEPT ![self] = FALSE]
+                                                                                /\ tcl' = [tcl EXCEPT ![self] = FALSE]
+                                                                                /\ sem' = [sem EXCEPT ![self] = FALSE]
+                                                                                /\ pc' = [pc EXCEPT ![self] = "P1"]
+                                                                           ELSE /\ pc' = [pc EXCEPT ![self] = "Loop"]
+                                                                                /\ UNCHANGED << sem, 
+                                                                                                tok, 
+                                                                                                trok, 
+                                                                                                tcl, 
+                                                                                                ci >>
                                                /\ UNCHANGED << doneF, slot >>
                     ELSE /\ pc' = [pc EXCEPT ![self] = "Done"]
-                         /\ UNCHANGED << doneF, slot, pc0, op, c, drop >>
+                         /\ UNCHANGED << sem, doneF, slot, tok, trok, tcl, pc0, 
+                                         op, c, drop, ci >>
               /\ UNCHANGED << sc, NT, NC, cap, mu, sleepers, getp, q, closed, 
-                              sends, downer, res, spur, stack, wc >>
+                              sends, selsends, sops, selsleep, downer, res, 
+                              spur, stack, wc, tsc, tsv, trc, tracc, pass, 
+                              isel >>
 
 S1(self) == /\ pc[self] = "S1"
             /\ mu[c[self]] = 0
@@ -248,12 +678,18 @@ S1(self) == /\ pc[self] = "S1"
                   THEN /\ pc' = [pc EXCEPT ![self] = "S2"]
                   ELSE /\ pc' = [pc EXCEPT ![self] = "S4"]
             /\ UNCHANGED << sc, NT, NC, cap, sleepers, getp, q, closed, sends, 
-                            downer, doneF, slot, res, spur, stack, wc, pc0, op, 
-                            c, drop >>
+                            selsends, sops, sem, selsleep, downer, doneF, slot, 
+                            res, tok, trok, tcl, spur, stack, wc, tsc, tsv, 
+                            trc, tracc, pc0, op, c, drop, ci, pass, isel >>
 
 S2(self) == /\ pc[self] = "S2"
             /\ IF getp[c[self]] # 1 /\ ~closed[c[self]]
                   THEN /\ sends' = [sends EXCEPT ![c[self]] = sends[c[self]] + 1]
+                       /\ IF sends'[c[self]] = 1 \/ sends'[c[self]] - 1 = selsends[c[self]]
+                             THEN /\ sem' = [t \in 1..MaxThreads |-> sem[t] \/ sops[c[self]][t] > 0]
+                                  /\ selsleep' = {t \in selsleep : sops[c[self]][t] = 0}
+                             ELSE /\ TRUE
+                                  /\ UNCHANGED << sem, selsleep >>
                        /\ /\ stack' = [stack EXCEPT ![self] = << [ procedure |->  "wait",
                                                                    pc        |->  "S3",
                                                                    wc        |->  wc[self] ] >>
@@ -272,16 +708,18 @@ S2(self) == /\ pc[self] = "S2"
                                   /\ getp' = [getp EXCEPT ![c[self]] = 0]
                                   /\ pc' = [pc EXCEPT ![self] = "S6"]
                                   /\ UNCHANGED << mu, res, pc0 >>
-                       /\ UNCHANGED << sends, stack, wc >>
-            /\ UNCHANGED << sc, NT, NC, cap, sleepers, q, closed, downer, spur, 
-                            op, c, drop >>
+                       /\ UNCHANGED << sends, sem, selsleep, stack, wc >>
+            /\ UNCHANGED << sc, NT, NC, cap, sleepers, q, closed, selsends, 
+                            sops, downer, tok, trok, tcl, spur, tsc, tsv, trc, 
+                            tracc, op, c, drop, ci, pass, isel >>
 
 S3(self) == /\ pc[self] = "S3"
             /\ sends' = [sends EXCEPT ![c[self]] = sends[c[self]] - 1]
             /\ pc' = [pc EXCEPT ![self] = "S2"]
             /\ UNCHANGED << sc, NT, NC, cap, mu, sleepers, getp, q, closed, 
-                            downer, doneF, slot, res, spur, stack, wc, pc0, op, 
-                            c, drop >>
+                            selsends, sops, sem, selsleep, downer, doneF, slot, 
+                            res, tok, trok, tcl, spur, stack, wc, tsc, tsv, 
+                            trc, tracc, pc0, op, c, drop, ci, pass, isel >>
 
 S4(self) == /\ pc[self] = "S4"
             /\ IF Len(q[c[self]]) = cap[c[self]] /\ ~closed[c[self]]
@@ -294,8 +732,9 @@ S4(self) == /\ pc[self] = "S4"
                   ELSE /\ pc' = [pc EXCEPT ![self] = "S5"]
                        /\ UNCHANGED << stack, wc >>
             /\ UNCHANGED << sc, NT, NC, cap, mu, sleepers, getp, q, closed, 
-                            sends, downer, doneF, slot, res, spur, pc0, op, c, 
-                            drop >>
+                            sends, selsends, sops, sem, selsleep, downer, 
+                            doneF, slot, res, tok, trok, tcl, spur, tsc, tsv, 
+                            trc, tracc, pc0, op, c, drop, ci, pass, isel >>
 
 S5(self) == /\ pc[self] = "S5"
             /\ IF closed[c[self]]
@@ -308,22 +747,28 @@ S5(self) == /\ pc[self] = "S5"
                        /\ pc' = [pc EXCEPT ![self] = "S6"]
                        /\ UNCHANGED << mu, res, pc0 >>
             /\ UNCHANGED << sc, NT, NC, cap, sleepers, getp, closed, sends, 
-                            downer, doneF, slot, spur, stack, wc, op, c, drop >>
+                            selsends, sops, sem, selsleep, downer, doneF, slot, 
+                            tok, trok, tcl, spur, stack, wc, tsc, tsv, trc, 
+                            tracc, op, c, drop, ci, pass, isel >>
 
 S6(self) == /\ pc[self] = "S6"
+            /\ sem' = [t \in 1..MaxThreads |-> sem[t] \/ sops[c[self]][t] > 0]
+            /\ selsleep' = {t \in selsleep : sops[c[self]][t] = 0}
             /\ mu' = [mu EXCEPT ![c[self]] = 0]
             /\ pc' = [pc EXCEPT ![self] = "S7"]
             /\ UNCHANGED << sc, NT, NC, cap, sleepers, getp, q, closed, sends, 
-                            downer, doneF, slot, res, spur, stack, wc, pc0, op, 
-                            c, drop >>
+                            selsends, sops, downer, doneF, slot, res, tok, 
+                            trok, tcl, spur, stack, wc, tsc, tsv, trc, tracc, 
+                            pc0, op, c, drop, ci, pass, isel >>
 
 S7(self) == /\ pc[self] = "S7"
             /\ sleepers' = [sleepers EXCEPT ![c[self]] = {}]
             /\ res' = [res EXCEPT ![self] = Append(res[self], R(0, FALSE, ""))]
             /\ pc' = [pc EXCEPT ![self] = "Loop"]
             /\ UNCHANGED << sc, NT, NC, cap, mu, getp, q, closed, sends, 
-                            downer, doneF, slot, spur, stack, wc, pc0, op, c, 
-                            drop >>
+                            selsends, sops, sem, selsleep, downer, doneF, slot, 
+                            tok, trok, tcl, spur, stack, wc, tsc, tsv, trc, 
+                            tracc, pc0, op, c, drop, ci, pass, isel >>
 
 R1(self) == /\ pc[self] = "R1"
             /\ mu[c[self]] = 0
@@ -332,8 +777,9 @@ R1(self) == /\ pc[self] = "R1"
                   THEN /\ pc' = [pc EXCEPT ![self] = "R2"]
                   ELSE /\ pc' = [pc EXCEPT ![self] = "R8"]
             /\ UNCHANGED << sc, NT, NC, cap, sleepers, getp, q, closed, sends, 
-                            downer, doneF, slot, res, spur, stack, wc, pc0, op, 
-                            c, drop >>
+                            selsends, sops, sem, selsleep, downer, doneF, slot, 
+                            res, tok, trok, tcl, spur, stack, wc, tsc, tsv, 
+                            trc, tracc, pc0, op, c, drop, ci, pass, isel >>
 
 R2(self) == /\ pc[self] = "R2"
             /\ IF getp[c[self]] = 1 /\ ~closed[c[self]]
@@ -346,37 +792,44 @@ R2(self) == /\ pc[self] = "R2"
                   ELSE /\ pc' = [pc EXCEPT ![self] = "R3"]
                        /\ UNCHANGED << stack, wc >>
             /\ UNCHANGED << sc, NT, NC, cap, mu, sleepers, getp, q, closed, 
-                            sends, downer, doneF, slot, res, spur, pc0, op, c, 
-                            drop >>
+                            sends, selsends, sops, sem, selsleep, downer, 
+                            doneF, slot, res, tok, trok, tcl, spur, tsc, tsv, 
+                            trc, tracc, pc0, op, c, drop, ci, pass, isel >>
 
 R3(self) == /\ pc[self] = "R3"
             /\ IF closed[c[self]]
                   THEN /\ mu' = [mu EXCEPT ![c[self]] = 0]
                        /\ res' = [res EXCEPT ![self] = Append(res[self], R(0, FALSE, ""))]
                        /\ pc' = [pc EXCEPT ![self] = "Loop"]
-                       /\ UNCHANGED << getp, downer >>
+                       /\ UNCHANGED << getp, sem, selsleep, downer >>
                   ELSE /\ getp' = [getp EXCEPT ![c[self]] = 1]
                        /\ downer' = [downer EXCEPT ![c[self]] = self]
+                       /\ sem' = [t \in 1..MaxThreads |-> sem[t] \/ sops[c[self]][t] > 0]
+                       /\ selsleep' = {t \in selsleep : sops[c[self]][t] = 0}
                        /\ mu' = [mu EXCEPT ![c[self]] = 0]
                        /\ pc' = [pc EXCEPT ![self] = "R4"]
                        /\ res' = res
-            /\ UNCHANGED << sc, NT, NC, cap, sleepers, q, closed, sends, doneF, 
-                            slot, spur, stack, wc, pc0, op, c, drop >>
+            /\ UNCHANGED << sc, NT, NC, cap, sleepers, q, closed, sends, 
+                            selsends, sops, doneF, slot, tok, trok, tcl, spur, 
+                            stack, wc, tsc, tsv, trc, tracc, pc0, op, c, drop, 
+                            ci, pass, isel >>
 
 R4(self) == /\ pc[self] = "R4"
             /\ sleepers' = [sleepers EXCEPT ![c[self]] = {}]
             /\ pc' = [pc EXCEPT ![self] = "R5"]
             /\ UNCHANGED << sc, NT, NC, cap, mu, getp, q, closed, sends, 
-                            downer, doneF, slot, res, spur, stack, wc, pc0, op, 
-                            c, drop >>
+                            selsends, sops, sem, selsleep, downer, doneF, slot, 
+                            res, tok, trok, tcl, spur, stack, wc, tsc, tsv, 
+                            trc, tracc, pc0, op, c, drop, ci, pass, isel >>
 
 R5(self) == /\ pc[self] = "R5"
             /\ mu[c[self]] = 0
             /\ mu' = [mu EXCEPT ![c[self]] = self]
             /\ pc' = [pc EXCEPT ![self] = "R6"]
             /\ UNCHANGED << sc, NT, NC, cap, sleepers, getp, q, closed, sends, 
-                            downer, doneF, slot, res, spur, stack, wc, pc0, op, 
-                            c, drop >>
+                            selsends, sops, sem, selsleep, downer, doneF, slot, 
+                            res, tok, trok, tcl, spur, stack, wc, tsc, tsv, 
+                            trc, tracc, pc0, op, c, drop, ci, pass, isel >>
 
 R6(self) == /\ pc[self] = "R6"
             /\ IF (IF HandOffBug THEN getp[c[self]] = 1 ELSE ~doneF[self]) /\ ~closed[c[self]]
@@ -389,16 +842,18 @@ R6(self) == /\ pc[self] = "R6"
                   ELSE /\ pc' = [pc EXCEPT ![self] = "R7"]
                        /\ UNCHANGED << stack, wc >>
             /\ UNCHANGED << sc, NT, NC, cap, mu, sleepers, getp, q, closed, 
-                            sends, downer, doneF, slot, res, spur, pc0, op, c, 
-                            drop >>
+                            sends, selsends, sops, sem, selsleep, downer, 
+                            doneF, slot, res, tok, trok, tcl, spur, tsc, tsv, 
+                            trc, tracc, pc0, op, c, drop, ci, pass, isel >>
 
 R7(self) == /\ pc[self] = "R7"
             /\ res' = [res EXCEPT ![self] = Append(res[self], R(IF drop[self] THEN 0 ELSE slot[self], IF HandOffBug THEN ~closed[c[self]] ELSE doneF[self], ""))]
             /\ mu' = [mu EXCEPT ![c[self]] = 0]
             /\ pc' = [pc EXCEPT ![self] = "Loop"]
             /\ UNCHANGED << sc, NT, NC, cap, sleepers, getp, q, closed, sends, 
-                            downer, doneF, slot, spur, stack, wc, pc0, op, c, 
-                            drop >>
+                            selsends, sops, sem, selsleep, downer, doneF, slot, 
+                            tok, trok, tcl, spur, stack, wc, tsc, tsv, trc, 
+                            tracc, pc0, op, c, drop, ci, pass, isel >>
 
 R8(self) == /\ pc[self] = "R8"
             /\ IF Len(q[c[self]]) = 0 /\ ~closed[c[self]]
@@ -411,30 +866,36 @@ R8(self) == /\ pc[self] = "R8"
                   ELSE /\ pc' = [pc EXCEPT ![self] = "R9"]
                        /\ UNCHANGED << stack, wc >>
             /\ UNCHANGED << sc, NT, NC, cap, mu, sleepers, getp, q, closed, 
-                            sends, downer, doneF, slot, res, spur, pc0, op, c, 
-                            drop >>
+                            sends, selsends, sops, sem, selsleep, downer, 
+                            doneF, slot, res, tok, trok, tcl, spur, tsc, tsv, 
+                            trc, tracc, pc0, op, c, drop, ci, pass, isel >>
 
 R9(self) == /\ pc[self] = "R9"
             /\ IF Len(q[c[self]]) = 0
                   THEN /\ mu' = [mu EXCEPT ![c[self]] = 0]
                        /\ res' = [res EXCEPT ![self] = Append(res[self], R(0, FALSE, ""))]
                        /\ pc' = [pc EXCEPT ![self] = "Loop"]
-                       /\ UNCHANGED << q, slot >>
+                       /\ UNCHANGED << q, sem, selsleep, slot >>
                   ELSE /\ slot' = [slot EXCEPT ![self] = Head(q[c[self]])]
                        /\ q' = [q EXCEPT ![c[self]] = Tail(q[c[self]])]
+                       /\ sem' = [t \in 1..MaxThreads |-> sem[t] \/ sops[c[self]][t] > 0]
+                       /\ selsleep' = {t \in selsleep : sops[c[self]][t] = 0}
                        /\ mu' = [mu EXCEPT ![c[self]] = 0]
                        /\ pc' = [pc EXCEPT ![self] = "R10"]
                        /\ res' = res
             /\ UNCHANGED << sc, NT, NC, cap, sleepers, getp, closed, sends, 
-                            downer, doneF, spur, stack, wc, pc0, op, c, drop >>
+                            selsends, sops, downer, doneF, tok, trok, tcl, 
+                            spur, stack, wc, tsc, tsv, trc, tracc, pc0, op, c, 
+                            drop, ci, pass, isel >>
 
 R10(self) == /\ pc[self] = "R10"
              /\ sleepers' = [sleepers EXCEPT ![c[self]] = {}]
              /\ res' = [res EXCEPT ![self] = Append(res[self], R(IF drop[self] THEN 0 ELSE slot[self], TRUE, ""))]
              /\ pc' = [pc EXCEPT ![self] = "Loop"]
              /\ UNCHANGED << sc, NT, NC, cap, mu, getp, q, closed, sends, 
-                             downer, doneF, slot, spur, stack, wc, pc0, op, c, 
-                             drop >>
+                             selsends, sops, sem, selsleep, downer, doneF, 
+                             slot, tok, trok, tcl, spur, stack, wc, tsc, tsv, 
+                             trc, tracc, pc0, op, c, drop, ci, pass, isel >>
 
 C1(self) == /\ pc[self] = "C1"
             /\ mu[c[self]] = 0
@@ -442,38 +903,284 @@ C1(self) == /\ pc[self] = "C1"
                   THEN /\ res' = [res EXCEPT ![self] = Append(res[self], R(0, FALSE, "closeclosed"))]
                        /\ pc0' = [pc0 EXCEPT ![self] = 99]
                        /\ pc' = [pc EXCEPT ![self] = "Loop"]
-                       /\ UNCHANGED closed
+                       /\ UNCHANGED << closed, sem, selsleep >>
                   ELSE /\ closed' = [closed EXCEPT ![c[self]] = TRUE]
+                       /\ sem' = [t \in 1..MaxThreads |-> sem[t] \/ sops[c[self]][t] > 0]
+                       /\ selsleep' = {t \in selsleep : sops[c[self]][t] = 0}
                        /\ pc' = [pc EXCEPT ![self] = "C2"]
                        /\ UNCHANGED << res, pc0 >>
             /\ UNCHANGED << sc, NT, NC, cap, mu, sleepers, getp, q, sends, 
-                            downer, doneF, slot, spur, stack, wc, op, c, drop >>
+                            selsends, sops, downer, doneF, slot, tok, trok, 
+                            tcl, spur, stack, wc, tsc, tsv, trc, tracc, op, c, 
+                            drop, ci, pass, isel >>
 
 C2(self) == /\ pc[self] = "C2"
             /\ sleepers' = [sleepers EXCEPT ![c[self]] = {}]
             /\ res' = [res EXCEPT ![self] = Append(res[self], R(0, FALSE, ""))]
             /\ pc' = [pc EXCEPT ![self] = "Loop"]
             /\ UNCHANGED << sc, NT, NC, cap, mu, getp, q, closed, sends, 
-                            downer, doneF, slot, spur, stack, wc, pc0, op, c, 
-                            drop >>
+                            selsends, sops, sem, selsleep, downer, doneF, slot, 
+                            tok, trok, tcl, spur, stack, wc, tsc, tsv, trc, 
+                            tracc, pc0, op, c, drop, ci, pass, isel >>
+
+T1(self) == /\ pc[self] = "T1"
+            /\ IF ci[self] <= Len(op[self].cases) /\ ~tok[self] /\ ~tcl[self]
+                  THEN /\ c' = [c EXCEPT ![self] = op[self].cases[ci[self]].c + 1]
+                       /\ IF op[self].cases[ci[self]].send
+                             THEN /\ /\ stack' = [stack EXCEPT ![self] = << [ procedure |->  "trysend",
+                                                                              pc        |->  "T2",
+                                                                              tsc       |->  tsc[self],
+                                                                              tsv       |->  tsv[self] ] >>
+                                                                          \o stack[self]]
+                                     /\ tsc' = [tsc EXCEPT ![self] = c'[self]]
+                                     /\ tsv' = [tsv EXCEPT ![self] = op[self].cases[ci[self]].v]
+                                  /\ pc' = [pc EXCEPT ![self] = "TSa"]
+                                  /\ UNCHANGED << trc, tracc >>
+                             ELSE /\ /\ stack' = [stack EXCEPT ![self] = << [ procedure |->  "tryrecv",
+                                                                              pc        |->  "T2",
+                                                                              trc       |->  trc[self],
+                                                                              tracc     |->  tracc[self] ] >>
+                                                                          \o stack[self]]
+                                     /\ tracc' = [tracc EXCEPT ![self] = TRUE]
+                                     /\ trc' = [trc EXCEPT ![self] = c'[self]]
+                                  /\ pc' = [pc EXCEPT ![self] = "TRa"]
+                                  /\ UNCHANGED << tsc, tsv >>
+                       /\ UNCHANGED << res, pc0 >>
+                  ELSE /\ IF tcl[self]
+                             THEN /\ res' = [res EXCEPT ![self] = Append(res[self], R(0, FALSE, "sendclosed"))]
+                                  /\ pc0' = [pc0 EXCEPT ![self] = 99]
+                             ELSE /\ IF tok[self]
+                                        THEN /\ res' = [res EXCEPT ![self] = Append(res[self], [sel |-> ci[self], val |-> IF trok[self] /\ ~drop[self] THEN slot[self] ELSE 0, ok |-> trok[self], pan |-> ""])]
+                                        ELSE /\ res' = [res EXCEPT ![self] = Append(res[self], R(0, FALSE, ""))]
+                                  /\ pc0' = pc0
+                       /\ pc' = [pc EXCEPT ![self] = "Loop"]
+                       /\ UNCHANGED << stack, tsc, tsv, trc, tracc, c >>
+            /\ UNCHANGED << sc, NT, NC, cap, mu, sleepers, getp, q, closed, 
+                            sends, selsends, sops, sem, selsleep, downer, 
+                            doneF, slot, tok, trok, tcl, spur, wc, op, drop, 
+                            ci, pass, isel >>
+
+T2(self) == /\ pc[self] = "T2"
+            /\ IF ~tok[self] /\ ~tcl[self]
+                  THEN /\ ci' = [ci EXCEPT ![self] = ci[self] + 1]
+                  ELSE /\ TRUE
+                       /\ ci' = ci
+            /\ pc' = [pc EXCEPT ![self] = "T1"]
+            /\ UNCHANGED << sc, NT, NC, cap, mu, sleepers, getp, q, closed, 
+                            sends, selsends, sops, sem, selsleep, downer, 
+                            doneF, slot, res, tok, trok, tcl, spur, stack, wc, 
+                            tsc, tsv, trc, tracc, pc0, op, c, drop, pass, isel >>
+
+P1(self) == /\ pc[self] = "P1"
+            /\ IF ci[self] <= Len(op[self].cases)
+                  THEN /\ c' = [c EXCEPT ![self] = op[self].cases[ci[self]].c + 1]
+                       /\ mu[c'[self]] = 0
+                       /\ sops' = [sops EXCEPT ![c'[self]][self] = sops[c'[self]][self] + 1]
+                       /\ IF cap[c'[self]] = 0 /\ op[self].cases[ci[self]].send
+                             THEN /\ sends' = [sends EXCEPT ![c'[self]] = sends[c'[self]] + 1]
+                                  /\ selsends' = [selsends EXCEPT ![c'[self]] = selsends[c'[self]] + 1]
+                                  /\ sem' = [t \in 1..MaxThreads |-> sem[t] \/ sops'[c'[self]][t] > 0]
+                                  /\ selsleep' = {t \in selsleep : sops'[c'[self]][t] = 0}
+                             ELSE /\ TRUE
+                                  /\ UNCHANGED << sends, selsends, sem, 
+                                                  selsleep >>
+                       /\ ci' = [ci EXCEPT ![self] = ci[self] + 1]
+                       /\ pc' = [pc EXCEPT ![self] = "P1"]
+                  ELSE /\ pc' = [pc EXCEPT ![self] = "L1"]
+                       /\ UNCHANGED << sends, selsends, sops, sem, selsleep, c, 
+                                       ci >>
+            /\ UNCHANGED << sc, NT, NC, cap, mu, sleepers, getp, q, closed, 
+                            downer, doneF, slot, res, tok, trok, tcl, spur, 
+                            stack, wc, tsc, tsv, trc, tracc, pc0, op, drop, 
+                            pass, isel >>
+
+L1(self) == /\ pc[self] = "L1"
+            /\ pass' = [pass EXCEPT ![self] = 1]
+            /\ pc' = [pc EXCEPT ![self] = "L2"]
+            /\ UNCHANGED << sc, NT, NC, cap, mu, sleepers, getp, q, closed, 
+                            sends, selsends, sops, sem, selsleep, downer, 
+                            doneF, slot, res, tok, trok, tcl, spur, stack, wc, 
+                            tsc, tsv, trc, tracc, pc0, op, c, drop, ci, isel >>
+
+L2(self) == /\ pc[self] = "L2"
+            /\ IF pass[self] <= 2 /\ ~tok[self] /\ ~tcl[self]
+                  THEN /\ ci' = [ci EXCEPT ![self] = 1]
+                       /\ pc' = [pc EXCEPT ![self] = "L3"]
+                  ELSE /\ IF ~tok[self] /\ ~tcl[self]
+                             THEN /\ pc' = [pc EXCEPT ![self] = "W3"]
+                             ELSE /\ pc' = [pc EXCEPT ![self] = "E0"]
+                       /\ ci' = ci
+            /\ UNCHANGED << sc, NT, NC, cap, mu, sleepers, getp, q, closed, 
+                            sends, selsends, sops, sem, selsleep, downer, 
+                            doneF, slot, res, tok, trok, tcl, spur, stack, wc, 
+                            tsc, tsv, trc, tracc, pc0, op, c, drop, pass, isel >>
+
+L3(self) == /\ pc[self] = "L3"
+            /\ IF ci[self] <= Len(op[self].cases) /\ ~tok[self] /\ ~tcl[self]
+                  THEN /\ IF op[self].cases[ci[self]].send = PassSends(op[self], pass[self])
+                             THEN /\ c' = [c EXCEPT ![self] = op[self].cases[ci[self]].c + 1]
+                                  /\ IF op[self].cases[ci[self]].send
+                                        THEN /\ /\ stack' = [stack EXCEPT ![self] = << [ procedure |->  "trysend",
+                                                                                         pc        |->  "L4",
+                                                                                         tsc       |->  tsc[self],
+                                                                                         tsv       |->  tsv[self] ] >>
+                                                                                     \o stack[self]]
+                                                /\ tsc' = [tsc EXCEPT ![self] = c'[self]]
+                                                /\ tsv' = [tsv EXCEPT ![self] = op[self].cases[ci[self]].v]
+                                             /\ pc' = [pc EXCEPT ![self] = "TSa"]
+                                             /\ UNCHANGED << trc, tracc >>
+                                        ELSE /\ /\ stack' = [stack EXCEPT ![self] = << [ procedure |->  "tryrecv",
+                                                                                         pc        |->  "L4",
+                                                                                         trc       |->  trc[self],
+                                                                                         tracc     |->  tracc[self] ] >>
+                                                                                     \o stack[self]]
+                                                /\ tracc' = [tracc EXCEPT ![self] = (~SendFirst(op[self])) /\ (c'[self] \notin SendChans(op[self]))]
+                                                /\ trc' = [trc EXCEPT ![self] = c'[self]]
+                                             /\ pc' = [pc EXCEPT ![self] = "TRa"]
+                                             /\ UNCHANGED << tsc, tsv >>
+                             ELSE /\ pc' = [pc EXCEPT ![self] = "L4"]
+                                  /\ UNCHANGED << stack, tsc, tsv, trc, tracc, 
+                                                  c >>
+                       /\ pass' = pass
+                  ELSE /\ IF ~tok[self] /\ ~tcl[self]
+                             THEN /\ pass' = [pass EXCEPT ![self] = pass[self] + 1]
+                             ELSE /\ TRUE
+                                  /\ pass' = pass
+                       /\ pc' = [pc EXCEPT ![self] = "L2"]
+                       /\ UNCHANGED << stack, tsc, tsv, trc, tracc, c >>
+            /\ UNCHANGED << sc, NT, NC, cap, mu, sleepers, getp, q, closed, 
+                            sends, selsends, sops, sem, selsleep, downer, 
+                            doneF, slot, res, tok, trok, tcl, spur, wc, pc0, 
+                            op, drop, ci, isel >>
+
+L4(self) == /\ pc[self] = "L4"
+            /\ IF ~tok[self] /\ ~tcl[self]
+                  THEN /\ ci' = [ci EXCEPT ![self] = ci[self] + 1]
+                  ELSE /\ TRUE
+                       /\ ci' = ci
+            /\ pc' = [pc EXCEPT ![self] = "L3"]
+            /\ UNCHANGED << sc, NT, NC, cap, mu, sleepers, getp, q, closed, 
+                            sends, selsends, sops, sem, selsleep, downer, 
+                            doneF, slot, res, tok, trok, tcl, spur, stack, wc, 
+                            tsc, tsv, trc, tracc, pc0, op, c, drop, pass, isel >>
+
+W3(self) == /\ pc[self] = "W3"
+            /\ IF sem[self]
+                  THEN /\ sem' = [sem EXCEPT ![self] = FALSE]
+                       /\ pc' = [pc EXCEPT ![self] = "W5"]
+                       /\ UNCHANGED selsleep
+                  ELSE /\ selsleep' = (selsleep \cup {self})
+                       /\ pc' = [pc EXCEPT ![self] = "W4"]
+                       /\ sem' = sem
+            /\ UNCHANGED << sc, NT, NC, cap, mu, sleepers, getp, q, closed, 
+                            sends, selsends, sops, downer, doneF, slot, res, 
+                            tok, trok, tcl, spur, stack, wc, tsc, tsv, trc, 
+                            tracc, pc0, op, c, drop, ci, pass, isel >>
+
+W4(self) == /\ pc[self] = "W4"
+            /\ self \notin selsleep
+            /\ sem' = [sem EXCEPT ![self] = FALSE]
+            /\ pc' = [pc EXCEPT ![self] = "W5"]
+            /\ UNCHANGED << sc, NT, NC, cap, mu, sleepers, getp, q, closed, 
+                            sends, selsends, sops, selsleep, downer, doneF, 
+                            slot, res, tok, trok, tcl, spur, stack, wc, tsc, 
+                            tsv, trc, tracc, pc0, op, c, drop, ci, pass, isel >>
+
+W5(self) == /\ pc[self] = "W5"
+            /\ pc' = [pc EXCEPT ![self] = "L1"]
+            /\ UNCHANGED << sc, NT, NC, cap, mu, sleepers, getp, q, closed, 
+                            sends, selsends, sops, sem, selsleep, downer, 
+                            doneF, slot, res, tok, trok, tcl, spur, stack, wc, 
+                            tsc, tsv, trc, tracc, pc0, op, c, drop, ci, pass, 
+                            isel >>
+
+E0(self) == /\ pc[self] = "E0"
+            /\ IF SelPanicBug /\ tcl[self]
+                  THEN /\ res' = [res EXCEPT ![self] = Append(res[self], R(0, FALSE, "sendclosed"))]
+                       /\ pc0' = [pc0 EXCEPT ![self] = 99]
+                       /\ pc' = [pc EXCEPT ![self] = "Loop"]
+                  ELSE /\ pc' = [pc EXCEPT ![self] = "E1"]
+                       /\ UNCHANGED << res, pc0 >>
+            /\ UNCHANGED << sc, NT, NC, cap, mu, sleepers, getp, q, closed, 
+                            sends, selsends, sops, sem, selsleep, downer, 
+                            doneF, slot, tok, trok, tcl, spur, stack, wc, tsc, 
+                            tsv, trc, tracc, op, c, drop, ci, pass, isel >>
+
+E1(self) == /\ pc[self] = "E1"
+            /\ isel' = [isel EXCEPT ![self] = ci[self]]
+            /\ ci' = [ci EXCEPT ![self] = 1]
+            /\ pc' = [pc EXCEPT ![self] = "E2"]
+            /\ UNCHANGED << sc, NT, NC, cap, mu, sleepers, getp, q, closed, 
+                            sends, selsends, sops, sem, selsleep, downer, 
+                            doneF, slot, res, tok, trok, tcl, spur, stack, wc, 
+                            tsc, tsv, trc, tracc, pc0, op, c, drop, pass >>
+
+E2(self) == /\ pc[self] = "E2"
+            /\ IF ci[self] <= Len(op[self].cases)
+                  THEN /\ c' = [c EXCEPT ![self] = op[self].cases[ci[self]].c + 1]
+                       /\ mu[c'[self]] = 0
+                       /\ sops' = [sops EXCEPT ![c'[self]][self] = sops[c'[self]][self] - 1]
+                       /\ IF cap[c'[self]] = 0 /\ op[self].cases[ci[self]].send
+                             THEN /\ sends' = [sends EXCEPT ![c'[self]] = sends[c'[self]] - 1]
+                                  /\ selsends' = [selsends EXCEPT ![c'[self]] = selsends[c'[self]] - 1]
+                                  /\ pc' = [pc EXCEPT ![self] = "E3"]
+                             ELSE /\ pc' = [pc EXCEPT ![self] = "E4"]
+                                  /\ UNCHANGED << sends, selsends >>
+                       /\ UNCHANGED << res, pc0 >>
+                  ELSE /\ IF tcl[self]
+                             THEN /\ res' = [res EXCEPT ![self] = Append(res[self], R(0, FALSE, "sendclosed"))]
+                                  /\ pc0' = [pc0 EXCEPT ![self] = 99]
+                             ELSE /\ res' = [res EXCEPT ![self] = Append(res[self], [sel |-> isel[self], val |-> IF trok[self] /\ ~drop[self] THEN slot[self] ELSE 0, ok |-> trok[self], pan |-> ""])]
+                                  /\ pc0' = pc0
+                       /\ pc' = [pc EXCEPT ![self] = "Loop"]
+                       /\ UNCHANGED << sends, selsends, sops, c >>
+            /\ UNCHANGED << sc, NT, NC, cap, mu, sleepers, getp, q, closed, 
+                            sem, selsleep, downer, doneF, slot, tok, trok, tcl, 
+                            spur, stack, wc, tsc, tsv, trc, tracc, op, drop, 
+                            ci, pass, isel >>
+
+E4(self) == /\ pc[self] = "E4"
+            /\ ci' = [ci EXCEPT ![self] = ci[self] + 1]
+            /\ pc' = [pc EXCEPT ![self] = "E2"]
+            /\ UNCHANGED << sc, NT, NC, cap, mu, sleepers, getp, q, closed, 
+                            sends, selsends, sops, sem, selsleep, downer, 
+                            doneF, slot, res, tok, trok, tcl, spur, stack, wc, 
+                            tsc, tsv, trc, tracc, pc0, op, c, drop, pass, isel >>
+
+E3(self) == /\ pc[self] = "E3"
+            /\ sleepers' = [sleepers EXCEPT ![c[self]] = {}]
+            /\ pc' = [pc EXCEPT ![self] = "E4"]
+            /\ UNCHANGED << sc, NT, NC, cap, mu, getp, q, closed, sends, 
+                            selsends, sops, sem, selsleep, downer, doneF, slot, 
+                            res, tok, trok, tcl, spur, stack, wc, tsc, tsv, 
+                            trc, tracc, pc0, op, c, drop, ci, pass, isel >>
 
 thr(self) == Loop(self) \/ S1(self) \/ S2(self) \/ S3(self) \/ S4(self)
                 \/ S5(self) \/ S6(self) \/ S7(self) \/ R1(self) \/ R2(self)
                 \/ R3(self) \/ R4(self) \/ R5(self) \/ R6(self) \/ R7(self)
                 \/ R8(self) \/ R9(self) \/ R10(self) \/ C1(self)
-                \/ C2(self)
+                \/ C2(self) \/ T1(self) \/ T2(self) \/ P1(self) \/ L1(self)
+                \/ L2(self) \/ L3(self) \/ L4(self) \/ W3(self) \/ W4(self)
+                \/ W5(self) \/ E0(self) \/ E1(self) \/ E2(self) \/ E4(self)
+                \/ E3(self)
 
 Sp == /\ pc[0] = "Sp"
       /\ IF spur > 0
-            THEN /\ \E ch \in {x \in 1..MaxChans : sleepers[x] # {}}:
-                      \E t \in sleepers[ch]:
-                        sleepers' = [sleepers EXCEPT ![ch] = sleepers[ch] \ {t}]
+            THEN /\ \/ /\ \E ch \in {x \in 1..MaxChans : sleepers[x] # {}}:
+                            \E t \in sleepers[ch]:
+                              sleepers' = [sleepers EXCEPT ![ch] = sleepers[ch] \ {t}]
+                       /\ UNCHANGED selsleep
+                    \/ /\ \E t \in selsleep:
+                            selsleep' = selsleep \ {t}
+                       /\ UNCHANGED sleepers
                  /\ spur' = spur - 1
                  /\ pc' = [pc EXCEPT ![0] = "Sp"]
             ELSE /\ pc' = [pc EXCEPT ![0] = "Done"]
-                 /\ UNCHANGED << sleepers, spur >>
-      /\ UNCHANGED << sc, NT, NC, cap, mu, getp, q, closed, sends, downer, 
-                      doneF, slot, res, stack, wc, pc0, op, c, drop >>
+                 /\ UNCHANGED << sleepers, selsleep, spur >>
+      /\ UNCHANGED << sc, NT, NC, cap, mu, getp, q, closed, sends, selsends, 
+                      sops, sem, downer, doneF, slot, res, tok, trok, tcl, 
+                      stack, wc, tsc, tsv, trc, tracc, pc0, op, c, drop, ci, 
+                      pass, isel >>
 
 spurious == Sp
 
@@ -482,7 +1189,8 @@ Terminating == /\ \A self \in ProcSet: pc[self] = "Done"
                /\ UNCHANGED vars
 
 Next == spurious
-           \/ (\E self \in ProcSet: wait(self))
+           \/ (\E self \in ProcSet:  \/ wait(self) \/ trysend(self)
+                                     \/ tryrecv(self))
            \/ (\E self \in 1..MaxThreads: thr(self))
            \/ Terminating
 
@@ -495,7 +1203,7 @@ Termination == <>(\A self \in ProcSet: pc[self] = "Done")
 Threads == 1..NT
 Finished(t) == pc[t] = "Done"
 Blocked(t)  == t <= NT /\ ~Finished(t)
-NoThreadStep == \A t \in 1..MaxThreads : ~ENABLED (thr(t) \/ wait(t))
+NoThreadStep == \A t \in 1..MaxThreads : ~ENABLED (thr(t) \/ wait(t) \/ trysend(t) \/ tryrecv(t))
 
 \* terminal: no thread can move (spurious wake-ups do not count as progress)
 Terminal == NoThreadStep
@@ -509,4 +1217,9 @@ Emit == Terminal =>
 MutexOwnerSane == \A ch \in 1..MaxChans : mu[ch] \in 0..MaxThreads
 \* ring buffer never exceeds its capacity
 CapBound == \A ch \in 1..MaxChans : cap[ch] > 0 => Len(q[ch]) <= cap[ch]
+\* bookkeeping of the select registrations
+SelCounts == \A ch \in 1..MaxChans : /\ selsends[ch] >= 0 /\ selsends[ch] <= sends[ch]
+                                      /\ \A t \in 1..MaxThreads : sops[ch][t] >= 0
+\* a goroutine that is not inside a select has withdrawn from every channel
+Withdrawn == \A t \in 1..MaxThreads : pc[t] \in {"Loop", "Done"} => \A ch \in 1..MaxChans : sops[ch][t] = 0
 =============================================================================
